@@ -171,7 +171,22 @@ def check_C02(chk):
     chk.assumptions += ['key order of an object after a deleting update is left open (compared as a map)']
 
 
-CHECKS = {'C01': check_C01, 'C02': check_C02}
+def check_C03(chk):
+    q = chk.tier == 'quick'
+    chk.rule = ('TLC enumerates every stream program of the families streams (run) and lazyp (path mode) up to the node bound: producers '
+                'with bombs (error, divergence when the stream is built `repeat(empty) // .`, divergence when it is pulled `def d: d; d`, '
+                '`repeat`) under every prefix consumer (first, limit, skip, nth, isempty, any, all, label/break, //, try, foreach/reduce); '
+                'the definitional semantics cuts a stream at the consumed prefix, so a definite expectation means the bomb must not be reached; '
+                'the harness pulls exactly as many items from the real iterator as the expectation defines (a hang or crash is a violation). '
+                'non-trivial = the program contains a bomb and the expectation is definite.')
+    run_suite(chk, 'streams', 'MC_Sem', mc_cfg('streams', 3 if q else 4, ['run'], 7))
+    run_suite(chk, 'lazyp', 'MC_Sem', mc_cfg('lazyp', 3 if q else 4, ['paths', 'run'], 7))
+    run_suite(chk, 'rec', 'MC_Sem', mc_cfg('rec', 2 if q else 3, ['run'], 9))
+    chk.assumptions += ['bombs that consume inputs (input/inputs) are checked at the command-line level by C17 (JaqCli), not here',
+                        'a real run that does not return within HARNESS_TIMEOUT seconds while the specification is definite counts as a violation (hang)']
+
+
+CHECKS = {'C01': check_C01, 'C02': check_C02, 'C03': check_C03}
 
 
 def main():
